@@ -96,6 +96,30 @@ def run(ctx):
                          dict(estimator=name, params=opt, d_first=d, d_second=d2, X_second=data2['X'].tolist()))
       ctx.seen((name, repr(sorted(opt.items())), rnd), True)
       ctx.sample(dict(estimator=name, params=opt, components_shape=list(L.shape)), limit=5)
+  # ---- an SPD array given in single precision (kept as such: the solver then iterates in float32 and its result is PSD only up to
+  # float32 rounding): fit still returns a finite model of the right shape, for several iteration budgets
+  for name in ('MMC', 'MMC_Supervised', 'ITML', 'LSML'):
+    for rep in range(4 if thorough else 2):
+      data = fits.make_data(ctx.rng, d=int(ctx.rng.integers(2, 5)))
+      d0 = data['d']
+      Bi = ctx.rng.integers(-2, 3, size=(d0, d0)).astype(float)
+      arr = (Bi.T.dot(Bi) + 2 * np.eye(d0)).astype(np.float32)
+      for mi in (3, 5, 10, 30):
+        kw = dict(fits.base_kwargs(name, data), max_iter=mi)
+        kw['init' if name.startswith('MMC') else 'prior'] = arr
+        ctx.count('float32_array_option', 1)
+        try:
+          with warnings.catch_warnings():
+            warnings.simplefilter('ignore')
+            est = fits.fit(name, kw, data)
+        except Exception as ex:
+          ctx.fail_input('fit_runs', '%s with an SPD array of dtype float32 (max_iter=%d) raises %s' % (name, mi, type(ex).__name__),
+                         dict(estimator=name, array=arr.tolist(), max_iter=mi, X=data['X'].tolist()), observed=str(ex)[:200])
+          continue
+        L = np.asarray(est.components_)
+        if L.shape != (d0, d0) or L.dtype.kind != 'f' or not np.isfinite(L).all():
+          ctx.fail_input('components_real', '%s with a float32 SPD array: components_ is not a finite float array of shape (d, d)' % name,
+                         dict(estimator=name, array=arr.tolist(), max_iter=mi), observed=str((L.shape, str(L.dtype))))
   # ---- the unit the features are measured in: the same well-formed data in units of 2^6, 2^10 and 2^-10 still give a
   # finite model of the right shape (transformation learners and closed forms; the tuple solvers' units are C11-C15's)
   for name, kw, data in fits.zoo_specs(ctx.rng, variants=False, names=['NCA', 'MLKR', 'LMNN', 'LFDA', 'Covariance', 'RCA', 'RCA_Supervised']):
